@@ -592,6 +592,55 @@ def rule_state_predicates(ctx):
                        "%s(n) returns for (n vs %s.next()) %s: it can return before block n is %s" % (fname, what, {k: sorted(v) for k, v in res.items()}, what), g.loc())
 
 
+def rule_epoch_schedule_poll(ctx):
+    R = "C08.11"
+    ctx.rule(R, "epoch schedule maintenance (dynamic schedules): in every iteration of the updater, once the durable head is past the activation block of the last known epoch the execution layer IS asked for the pending schedule (must-poll; no other condition can skip it - in particular not 'the head did not move', which is exactly the situation after a restart at the last block of an epoch), and a returned schedule is filed under the epoch after the current one with the current epoch's expiration set to the block before its activation. Until the next epoch's schedule is known, blocks and payloads after the boundary are judged by the old committee - two correct nodes can then accept different blocks for one number")
+    bodies = []
+    for f in ctx.F.fns:
+        if f.in_testonly() or f.crate != "zksync_consensus_engine" or "interface" in f.file:
+            continue
+        if any(c["q"].endswith("EngineInterface::get_pending_validator_schedule") for c in ctx.T(f).calls()):
+            bodies.append(f)
+    ctx.floor(R, "bodies polling the pending validator schedule", len(bodies), 1)
+    for f in bodies:
+        T = ctx.T(f)
+        polls = frozenset(c["bb"] for c in T.calls() if c["q"].endswith("EngineInterface::get_pending_validator_schedule"))
+
+        def m(a, b):
+            act_a = chain(a)[1][-1:] == ["activation_block"]
+            act_b = chain(b)[1][-1:] == ["activation_block"]
+            if act_b and not act_a:
+                return 1        # cmp(head, activation)
+            if act_a and not act_b:
+                return -1
+            return 0
+        if not common.atom_is_tested(ctx, f, m):
+            ctx.note("C08.11: no comparison with the last epoch's activation block found in the updater - not decided")
+            ctx.ob(R, "must-poll past the activation block", True, "undecided shape (not reported)", f.loc())
+            continue
+        W = Walker(ctx, f, [Atom("cmp(head, last activation)", "cmp", m, ["<", "=", ">"])])
+        rets = set(Q.success_return_blocks(ctx, f)) if f.locals[0].s.startswith("std::result::Result<") else set(b for b, _ in Q.return_blocks_maybe_ok(ctx, f))
+        r = W.reachable({"cmp(head, last activation)": ">"}, 0, polls)
+        leak = r & rets
+        ctx.ob(R, "must-poll past the activation block", not leak and bool(rets), "with head > activation of the last known epoch every completed iteration has asked get_pending_validator_schedule" if not leak and rets else
+               "an iteration of the schedule updater can complete without asking for the pending schedule although the head is past the last epoch's activation block (an additional skip condition): after a restart at an epoch boundary the next committee stays unknown and blocks beyond the boundary are attributed to the old epoch", f.loc())
+        # never polled earlier than that (the execution layer's answer is only meaningful past the activation block)
+        names, tab = W.table({"poll": list(polls)})
+        early = [k for k, v in tab.items() if k[0] in ("<", "=") and "poll" in v]
+        ctx.ob(R, "poll gated by the activation block", not early, "the pending schedule is requested only when head > activation" if not early else "the pending schedule is requested under %s" % early, f.loc())
+    # the filing: insert(cur_epoch.next(), ..) and the expiration of the current entry
+    ins = []
+    for f in ctx.F.fns:
+        if f.in_testonly() or f.crate != "zksync_consensus_engine":
+            continue
+        T = ctx.T(f)
+        for c in T.calls():
+            if c["q"].endswith("BTreeMap::insert") and any("ScheduleWithLifetime" in f.ty(i).s for i in c["t"]["f"].get("ga", [])):
+                ins.append((f, T.args_of(c)))
+    nxt = [a for f, a in ins if len(a) > 1 and any(x[0] == "call" and x[1].endswith("EpochNumber::next") for x in subterms(a[1]))]
+    ctx.ob(R, "pending schedule filed under the next epoch", len(nxt) >= 1, "epoch_schedule.insert(cur_epoch.next(), pending)" if nxt else "no insertion of a schedule under cur_epoch.next() found (insert keys: %s)" % [show(a[1])[:40] for f, a in ins if len(a) > 1])
+
+
 def rule_visibility(ctx):
     R = "C08.9"
     ctx.rule(R, "closed world: BlockStore and try_push/update_persisted are not reachable from outside the engine crate (rustc effective visibility)")
@@ -608,4 +657,4 @@ def rule_visibility(ctx):
 
 
 RULES = [("C08.1", rule_verify_before_queue), ("C08.2", rule_single_door), ("C08.3", rule_next_only), ("C08.4", rule_persisted_grows),
-         ("C08.5", rule_eviction), ("C08.6", rule_single_writer), ("C08.7", rule_peer_blocks), ("C08.8", rule_get_block), ("C08.9", rule_visibility), ("C08.10", rule_state_predicates)]
+         ("C08.5", rule_eviction), ("C08.6", rule_single_writer), ("C08.7", rule_peer_blocks), ("C08.8", rule_get_block), ("C08.9", rule_visibility), ("C08.10", rule_state_predicates), ("C08.11", rule_epoch_schedule_poll)]
